@@ -313,3 +313,12 @@ Definition schedules_for (g : graph) (which : list (string * lock * lock)) : lis
 Definition excerpt2 : graph :=
   List.app excerpt [ mkFn 3 "Blockchain::add_blocks_from_mempool"%string Core Plain
                   [Acq LBlockchain Write "ab#0"%string; Acq LPeers Read "ab#1"%string; Rel LPeers; Rel LBlockchain] ].
+
+(* no task of the schedule is inside the wasm gate (native schedules; wasm schedules whose tasks are all
+   ungated exports) *)
+Definition gate_free1 (g : graph) (s : stask) : bool :=
+  match run_path g (st_root s) (st_path s) with
+  | Some st => negb (mem LSaito (p_h st ++ p_o st))
+  | None => false
+  end.
+Definition gate_free (g : graph) (sc : list stask) : bool := forallb (gate_free1 g) sc.
